@@ -58,6 +58,7 @@ type FuncContract struct {
 	FrameOnly bool // verified for its frame only: may panic, callee preconditions are not obligations (callee ensures are assumed only under them)
 	Borrows   []string    // parameters the callee neither retains nor describes in its clauses: objects reachable only through them are not published at the call
 	FreshObjs []writeSpec // objects reachable from the results that the callee allocated (heap, address term over the post-state; -1 = none)
+	SpecArgs  string      // package variable (pkg.Var) whose function.Spec literal gives the callback preconditions
 	Writes    []writeSpec // single objects (heap, address term) the function may write besides its own allocations
 }
 
@@ -99,7 +100,7 @@ type Contracts struct {
 	Prelude []string // raw SMT text blocks from contract files (//@ smt ...)
 }
 
-var clauseHead = regexp.MustCompile(`^(func|extern|requires|ensures|panics_may|panics|rejects|may_panic|modifies|loop|inline|trusted|pure|tags|ghost|let|global|lemma|axiom|fresh|unroll|noverify|calls|expect|smt|havoc_all|publishes|writes|fresh_obj|frame_only|borrows)\b(\[[^\]]*\])?\s*(.*)$`)
+var clauseHead = regexp.MustCompile(`^(func|extern|requires|ensures|panics_may|panics|rejects|spec_args|may_panic|modifies|loop|inline|trusted|pure|tags|ghost|let|global|lemma|axiom|fresh|unroll|noverify|calls|expect|smt|havoc_all|publishes|writes|fresh_obj|frame_only|borrows)\b(\[[^\]]*\])?\s*(.*)$`)
 
 func loadContracts(files []string) (*Contracts, error) {
 	cs := &Contracts{Funcs: map[string]*FuncContract{}}
@@ -276,6 +277,8 @@ func (cs *Contracts) loadFile(path string) error {
 					}
 					c.Rejects = append(c.Rejects, cl)
 				}
+			case "spec_args":
+				c.SpecArgs = strings.TrimSpace(r.rest)
 			case "borrows":
 				c.Borrows = append(c.Borrows, strings.Fields(r.rest)...)
 			case "may_panic":
